@@ -250,6 +250,7 @@ class FcpV2Transformer(Transformer):
 
         self.source = self.filesystem_proxy.read(self.filename)
         self.parser_context.set_module(self.filename.name, self.source)
+        self.error_logger.add_source(str(self.filename), self.source)
 
     @v_args(tree=True)  # type: ignore
     def preamble(self, tree: ParseTree) -> Result[Nil, FcpError]:
@@ -436,6 +437,7 @@ class FcpV2Transformer(Transformer):
 
         try:
             self.error_logger.add_source(filename.name, source)
+            self.error_logger.add_source(str(filename), source)
             fcp_ast = fcp_parser.parse(source)
         except UnexpectedInput as e:
             return _lark_error(self.error_logger, filename, source, e)
@@ -580,6 +582,7 @@ def _get_fcp(
 ) -> Result[v2.FcpV2, FcpError]:
     source = filesystem_proxy.read(filename)
     logger.add_source(filename.name, source)
+    logger.add_source(str(filename), source)
     try:
         fcp_ast = fcp_parser.parse(source)
     except UnexpectedInput as e:
